@@ -197,7 +197,7 @@ func runParamsCase(t *rapid.T, r *rec.Recorder) {
 		entry.Result = "applied"
 		history = append(history, entry)
 		tags = append(tags, g.sortedTags()...)
-		if len(g.tags) > 0 {
+		if boundaryCount(g.tags) > 0 {
 			acceptedBoundary = true
 		}
 		// blocks
